@@ -397,6 +397,11 @@ def c19(rec, tier):
     # fibers queued by one entry are still there for the next: the run queue is only ever pushed to and popped from
     f4_sched.run_queue_fifo(rec, F)
     f10_parity.run_number_equality(rec, F, "unboxed")
+    # a definition of an earlier entry is reached only through the module and the objects hanging off it (the entry's own
+    # chunk is gone): classes keep their method/field names and members alive, and a symbol of an earlier entry
+    # (AlreadyInitialized) is read and written the same way (twin agreement of variable_get / variable_set)
+    f5_trace.run(rec, F, only_adts=("laythe_core::object::class::Class", "laythe_core::module::Module", "laythe_core::object::instance::Instance", "laythe_core::object::closure::Closure", "laythe_core::object::fun::Fun"))
+    f2_emit.run_twins(rec, S)
 
 
 def _with_debug_parity(pid, fn):
